@@ -86,7 +86,8 @@ class AgpModel:
         then raises its own 'x is outside of interval' error: float resolution is exhausted)."""
         R = self.characteristics()
         mx = float(R.max())
-        for j in np.nonzero(R >= mx - rtol * (1 + abs(mx)))[0]:
+        zmag = max([abs(v) for v in self.zs if v is not None] or [0.0])
+        for j in np.nonzero(R >= mx - rtol * (1 + abs(mx)) - 64.0 * math.ulp(zmag) / (self.r * self.M))[0]:
             i = int(j) + 1
             x = self.predict(i)
             if not (self.xs[i - 1] < x < self.xs[i]):
@@ -122,7 +123,10 @@ def replay_history(n, r, hist, check_rule=True, rtol=1e-9):
             R = model.characteristics()
             mx = float(R.max())
             mine = float(R[i - 1])
-            tol = rtol * (1.0 + abs(mx))
+            # the term 2(z_r+z_l-2z*)/(rM) cancels values of the objective's level: its rounding error is a few
+            # ulp of that level over rM, whatever the order of the operations (negligible for levels around 1)
+            zmag = max(abs(v) for v in model.zs if v is not None)
+            tol = rtol * (1.0 + abs(mx)) + 64.0 * math.ulp(zmag) / (model.r * model.M)
             if not (mine >= mx - tol):
                 fail("trial %d (x=%r) subdivides interval (%r, %r) with characteristic %r while the "
                      "maximal characteristic is %r (M=%r, z*=%r, r=%r, N=%d)" %
